@@ -27,10 +27,12 @@ def scenario(rng):
     inc = rng.randint(1, 3)
     libs = []
     exp_pk = "(rename %s %s)" % (pk_internal, pk) if pk_internal != pk else pk
-    libs.append("(define-library (lib counter) (import (scheme base)) (export %s %s reset!) (begin (define %s %d) (define (%s k) (+ k %d)) "
-                "(define (%s) (set! %s (%s %s)) %s) (define (%s) %s) (define (reset! v) (set! %s v) %s)))"
+    # sometimes one internal binding is exported under two external names
+    alias = rng.choice(["", "", " (rename next! counter-next!)", " (rename reset! restart!)"])
+    libs.append(("(define-library (lib counter) (import (scheme base)) (export %s %s reset!" + alias + ") (begin (define %s %d) (define (%s k) (+ k %d)) "
+                 "(define (%s) (set! %s (%s %s)) %s) (define (%s) %s) (define (reset! v) (set! %s v) %s)))")
                 % (nx, exp_pk, st, start, hp, inc, nx, st, hp, st, st, pk_internal, st, st, st))
-    have = {"counter": [nx, pk, "reset!"]}
+    have = {"counter": [nx, pk, "reset!"] + ([alias.split()[2].rstrip(")")] if alias else [])}
     # user1 imports the counter, possibly through an import set
     path1 = rng.choice(["(lib counter)", "(prefix (lib counter) k-)", "(rename (lib counter) (next! advance!))", "(only (lib counter) next!)"])
     call1 = {"(lib counter)": "next!", "(prefix (lib counter) k-)": "k-next!", "(rename (lib counter) (next! advance!))": "advance!", "(only (lib counter) next!)": "next!"}[path1]
@@ -80,7 +82,30 @@ def scenario(rng):
             imports.append("(rename %s (%s my-%s))" % (lname, n0, n0))
             for n in names:
                 avail[n] = ("my-" + n) if n == n0 else n
-    forms = ["(import %s)" % " ".join(imports)]
+    # the import sets are spread over 1-3 declarations; a declaration that fails (missing library, import cycle) may stand between them,
+    # and the counter may be imported once more, through another import set, after it
+    forms = []
+    cuts = sorted(rng.sample(range(1, len(imports)), min(len(imports) - 1, rng.choice([0, 0, 1, 2])))) if len(imports) > 1 else []
+    groups = [imports[a:b] for a, b in zip([0] + cuts, cuts + [len(imports)])]
+    failing = None
+    if rng.random() < 0.35:
+        failing = rng.choice(["(import (lib nope))", "(import (lib cyc a))", "(import (only (lib nope) x))"])
+        if "cyc" in failing:
+            libs.append("(define-library (lib cyc a) (import (scheme base) (lib counter) (lib cyc b)) (export ca) (begin (define ca 1)))")
+            libs.append("(define-library (lib cyc b) (import (scheme base) (lib cyc a)) (export cb) (begin (define cb 2)))")
+    at = rng.randrange(len(groups) + 1)
+    for gi, g in enumerate(groups):
+        if failing and gi == at:
+            forms.append(failing)
+        forms.append("(import %s)" % " ".join(g))
+    if failing and at == len(groups):
+        forms.append(failing)
+    if rng.random() < 0.4:
+        forms.append("(import (prefix (lib counter) z-))")
+        for n in have["counter"]:
+            avail.setdefault("z:" + n, "z-" + n)
+    elif rng.random() < 0.3:
+        forms.append("(import (lib user))")
     u = [1000]
 
     def uniq():
@@ -91,13 +116,13 @@ def scenario(rng):
         c = rng.random()
         if c < 0.4:
             calls = []
-            for base, args in (("next!", ""), ("use1!", ""), ("use2!", ""), (pk, ""), ("double", " 3"), ("outer", " 7"), ("get-plus", " 20 5"), ("get-low", ""), ("rboth", "")):
+            for base, args in (("next!", ""), ("z:next!", ""), ("counter-next!", ""), ("z:counter-next!", ""), ("z:" + pk, ""), ("use1!", ""), ("use2!", ""), (pk, ""), ("double", " 3"), ("outer", " 7"), ("get-plus", " 20 5"), ("get-low", ""), ("rboth", "")):
                 if base in avail:
                     calls.append("(%s%s)" % (avail[base], args))
             if calls:
                 forms.append(rng.choice(calls))
-        elif c < 0.5 and "reset!" in avail:
-            forms.append("(%s %d)" % (avail["reset!"], rng.randint(0, 50)))
+        elif c < 0.5 and ("reset!" in avail or "restart!" in avail):
+            forms.append("(%s %d)" % (avail[rng.choice([k for k in ("reset!", "restart!", "z:restart!", "z:reset!") if k in avail])], rng.randint(0, 50)))
         elif c < 0.62:
             # definitions colliding with library internals / with the library's imports
             forms.append(rng.choice(["(define %s %d)" % (st, uniq()), "(define (%s k) %d)" % (hp, uniq()), "(define %s %d)" % (pk_internal, uniq()),
@@ -187,7 +212,7 @@ def run(tier, seed):
             ctx.count("forms_evaluated", len(F))
             if verdict == "ok":
                 ctx.count("scenarios_agree")
-                paths = sum(1 for f in forms[1:] if "next!" in f or "use1!" in f or "use2!" in f)
+                paths = sum(1 for f in forms if not f.startswith("(import") and ("next!" in f or "use1!" in f or "use2!" in f))
                 if paths >= 2:
                     ctx.nontriv(" ".join(skeleton(f) for f in F) + "|" + str(len(libs)))
             elif verdict in ("oom", "fuel"):
